@@ -176,9 +176,16 @@ impl<'a> ExpressionEvaluator<'a> {
                         "cannot apply unary operators to lists of values!".to_string(),
                     ));
                 };
-                Ok(vec![DataType::Bool(Bool(
-                    set.contains(&evaluated[0]) != *negated,
-                ))])
+                // Three-valued IN: NULL on the left is unknown; a match is TRUE; no match is unknown if the
+                // list holds a NULL, FALSE otherwise. NOT IN negates TRUE/FALSE and keeps unknown.
+                if matches!(evaluated[0], DataType::Null) {
+                    return Ok(vec![DataType::Null]);
+                }
+                let found = set.contains(&evaluated[0]);
+                if !found && set.contains(&DataType::Null) {
+                    return Ok(vec![DataType::Null]);
+                }
+                Ok(vec![DataType::Bool(Bool(found != *negated))])
             }
             BoundExpression::Subquery { query, result_type } => {
                 todo!("Subquery evaluation is not yet implemented")
